@@ -25,6 +25,7 @@ CONSTANTS
     CompactAfter,  \* compaction requests are only issued after this many requests (generator bias; 0 in MC configs)
     DelFaultKinds, \* {} or SUBSET {"err", "cas", "die"}: a compaction may have one deletion fail / may be interrupted
     StreamBatch,   \* key-values per batch of a streamed range (300 in the code; 1 here makes every position a batch border)
+    ErrIsAbsent,   \* FALSE (the code): an error of the iterator of a point lookup is an error, not "absent"
     ResetOnRestart,\* TRUE (the code): a worker that starts a partition over drops what it had collected
     StreamRestarts,\* FALSE (the code since D25): a worker whose iterator failed does not start over once a batch has been sent
     GenHist
@@ -184,6 +185,14 @@ PointRead(k, R) ==
     IF c = {} THEN [found |-> FALSE, rev |-> 0, val |-> "-"]
     ELSE LET v == CHOOSE v \in c : \A w \in c : w.rev <= v.rev IN
          IF v.val = TOMB THEN [found |-> FALSE, rev |-> 0, val |-> "-"] ELSE [found |-> TRUE, rev |-> v.rev, val |-> v.val]
+\* the same lookup when the first Next of its iterator fails (a timeout, a region error): the code passes the error on; only
+\* the end of the iteration means "absent". ErrIsAbsent = TRUE is the lookup that answers "absent" for any error.
+PointReadFaulty(k, R) ==
+    IF ErrIsAbsent THEN [err |-> FALSE, res |-> [found |-> FALSE, rev |-> 0, val |-> "-"]]
+    ELSE [err |-> TRUE, res |-> [found |-> FALSE, rev |-> 0, val |-> "-"]]
+PointFaultInvariant ==
+    \A k \in Keys : \A R \in Revs \cup {0} : (R = 0 \/ R >= floor) =>
+        LET a == PointReadFaulty(k, R) IN ~a.err => a.res = PointRef(RefVer, k, R)
 PointIsSnapshot ==
     \A k \in Keys : \A R \in Revs \cup {0} : (R = 0 \/ R >= floor) => PointRead(k, R) = PointRef(RefVer, k, R)
 
